@@ -293,6 +293,8 @@ def gen_parse(rng, n):
     if n >= 20000:
         # thorough tier: small-scope exhaustive over truncation points of a few structured packets per class
         ops += every_prefix_ops(rng, 4)
+    else:
+        n *= 2          # the quick tier has room (a few seconds per check): double this family's share
     while len(ops) < n:
         cls, g = rng.choices(PARSE_GENS, PARSE_WEIGHTS)[0]
         b = g(rng)
@@ -540,8 +542,40 @@ BUILD_GENS = [prog_arp, prog_vxlan, prog_stp, prog_rtp, prog_bootp, prog_dhcp, p
 BUILD_WEIGHTS = [2, 2, 2, 4, 1, 4, 5]
 
 
+def known_finding_probes():
+    """programs that reproduce the family's known findings on every run (so a KNOWN-FINDING line is printed because it was
+    observed): KF-WApp-6 — a DHCP option whose payload exceeds what the one-byte length field can express"""
+    return ["new", "push DHCP", "set 0 add_option 60 " + "ab" * 256, "show",
+            "new", "push DHCP", "set 0 hostname " + "61" * 300, "show"]
+
+
+def dhcp_long_option(case_lines):
+    """does the (minimised) case build a DHCP packet with an option payload longer than 255 bytes?"""
+    if not any(l.startswith("push DHCP") and not l.startswith("push DHCPv6") for l in case_lines):
+        return False
+    for l in case_lines:
+        w = l.split(" ")
+        if len(w) >= 4 and w[0] == "set":
+            if w[2] == "add_option" and len(w) == 5 and len(w[4]) > 510:
+                return True
+            if w[2] in ("domain_name", "hostname") and len(w[3]) > 510:
+                return True
+            if w[2] in ("routers", "domain_name_servers") and w[3].count(",") >= 63:
+                return True
+    return False
+
+
+def refine_sig(sig, case_lines, detail):
+    if sig.get("class") == "api" and dhcp_long_option(case_lines):
+        sig = dict(sig)
+        sig["when"] = "dhcp-option-data-over-255"
+    return sig
+
+
 def gen_build(rng, n):
-    ops = []
+    ops = known_finding_probes()
+    if n < 20000:
+        n *= 2
     while len(ops) < n:
         g = rng.choices(BUILD_GENS, BUILD_WEIGHTS)[0]
         ops.append("new")
